@@ -312,7 +312,7 @@ func alphabet() []any {
 }
 
 func master(cfg *harness.Config, rep *harness.Report) {
-	rep.Rule = "user-id pairs incl. ids that are prefixes of one another, ids whose concatenation with a collection name collides with another user's keys (user 'abc' vs user 'ab' + collection 'c12'), '.', '..', ids with space, percent, backslash and non-ASCII, ids that are images of one another under name normalisations (non-portable characters -> '_', case folding, percent-unescaping); both users use the same collection names and point ids (plus, per pair, a collection named like the other user's id where that is a legal name; one pair addresses \"..%2F<other user>%2F<collection>\"). Breadth-first search over the product alphabet (per user: list, and per collection create / get / delete / insert 1 / insert 3 / update / search by id / filter search / delete point) on one real node through the HTTP handler chain; in lock-step each user's sub-history runs alone on its own node; every response of the interleaved run must equal the solitary run's response (status + canonical body). States are de-duplicated on the file inventory of all three nodes plus every list / get / search answer"
+	rep.Rule = "user-id pairs incl. ids that are prefixes of one another, ids whose concatenation with a collection name collides with another user's keys (user 'abc' vs user 'ab' + collection 'c12'), '.', '..', ids with space, percent, backslash and non-ASCII, ids that are images of one another under name normalisations (non-portable characters -> '_', case folding, percent-unescaping), ids that are glob patterns matching the other id ('team[1]' / 'team1', 'a?c' / 'abc', '*'); both users use the same collection names and point ids (plus, per pair, a collection named like the other user's id where that is a legal name; one pair addresses \"..%2F<other user>%2F<collection>\"). Breadth-first search over the product alphabet (per user: list, and per collection create / get / delete / insert 1 / insert 3 / update / search by id / filter search / delete point) on one real node through the HTTP handler chain; in lock-step each user's sub-history runs alone on its own node; every response of the interleaved run must equal the solitary run's response (status + canonical body). States are de-duplicated on the file inventory of all three nodes plus every list / get / search answer"
 	rep.Assumptions = []string{"user ids contain no '/' (the property's precondition)", "requests are issued one at a time: the node database serialises concurrent writers, so interleavings of whole requests are the schedule space at this level", "shard uuids are random and compared by rank"}
 	p := pool.New(pool.Options{CPUsPerWorker: 2, JobTimeout: 120 * time.Second})
 	if cfg.Replay != "" {
@@ -344,6 +344,10 @@ func master(cfg *harness.Config, rep *harness.Report) {
 		{"a@b.c", "a_b.c", []string{"col"}, []string{"col"}},
 		{"Alice", "alice", []string{"col"}, []string{"col"}},
 		{"a%20b", "a b", []string{"col"}, []string{"col"}},
+		// ids that are patterns (glob / regexp syntax) matching the other id
+		{"team[1]", "team1", []string{"col"}, []string{"col"}},
+		{"a?c", "abc", []string{"col"}, []string{"col"}},
+		{"*", "abc", []string{"col"}, []string{"col"}},
 		// collection ids that try to step out of the user's key space: "..%2F<other user>%2F<collection>"
 		// reaches the handlers as "../bob/col" (one path segment, 10 characters: inside the id length limits)
 		{"alice", "bob", []string{"col", "..%2Fbob%2Fcol"}, []string{"col", "..%2Falice%2Fcol"}},
